@@ -498,6 +498,7 @@ impl Prop for C17 {
     fn case_label(&self, tier: Tier, idx: usize) -> String { cases(tier)[idx].0.clone() }
     fn stall_secs(&self) -> u64 { 900 }
     fn rule(&self) -> String {
+        // (Minecraft strings: texts of 0 .. 2 MiB bytes incl. 16383/16384, 32767/32768, 65535/65536 and a multi-byte text)
         "reader: explicit-state search (stateright BFS, run twice, state counts must agree): state = (packet, cursor, byte \
          order); initial states = every packet of length <= 4 (quick) / 6 (thorough) over {00,01,41,7F,80,FF} in both byte \
          orders; 33 actions = read of every fixed-width type, move_cursor(+-1, +-2, +-7, 0, isize::MIN/MAX), read_string with \
@@ -702,7 +703,7 @@ impl Prop for C17 {
             }
             What::Strings => {
                 let mut n = 0u64;
-                let texts = ["".to_string(), "a".to_string(), "Zürich 東京 𝄞".to_string(), crate::rsm::long_string(127), crate::rsm::long_string(128), crate::rsm::long_string(20_000)];
+                let texts = ["".to_string(), "a".to_string(), "Zürich 東京 𝄞".to_string(), crate::rsm::long_string(127), crate::rsm::long_string(128), crate::rsm::long_string(16_383), crate::rsm::long_string(16_384), crate::rsm::long_string(20_000), crate::rsm::long_string(32_767), crate::rsm::long_string(32_768), crate::rsm::long_string(65_535), crate::rsm::long_string(65_536), "é".repeat(20_000), crate::rsm::long_string(2_097_152)];
                 for t in &texts {
                     n += 1;
                     let want = crate::rsm::minecraft::varint_string(t);
